@@ -11,6 +11,23 @@ NOTE = ("Trusted base: Lean 4.33 kernel (+ leanchecker re-check in the thorough 
         "string/Duration/BTreeSet/StableVec semantics, derive_builder/strum/derive_more/shorthand generated code, derived PartialEq/Ord/Hash. ")
 
 CLAIMS = {
+    "C03": {
+        "technique": "Lean 4 proof (writer and parser key sets refine one specification and are therefore equal after every written key line; text-level reduction of to_string/try_from to the typed-line state machine; counterexample theorems for the recorded findings) + exhaustive key/map/segment histories through try_from -> to_string -> try_from -> to_string on library and model",
+        "text": ("Proof (Lean 4, Props/C03.lean): writer_refines - the writer's handling of one segment key moves its 'already announced' set along the RFC key "
+                 "specification (C06.KeySpec) for the IV-stripped key and emits either nothing (key already in effect) or exactly that key line; key_lines_mirror - "
+                 "hence, for every announced set and every key, the parser's keys in effect after the emitted lines EQUAL the writer's set (both are sorted "
+                 "duplicate-free listings of the same specification state: C11.listing_canonical + C06.abs_step); media_text_reduction - to_string() followed by "
+                 "try_from equals the typed-line state machine on the written lines (Proofs/Render.lean, under LineRT per line); k2_counterexample, "
+                 "k3_counterexample - the two recorded histories on which the full statement is false, with control_roundtrip as their repaired shape. "
+                 "PARTIAL: the assembly of these pieces into 'for every parsed playlist free of the K2/K3/K4 shapes, write -> parse returns the same value' over "
+                 "typed lines is stated in DESIGN.md section 7 (C03) with its proof status; what is not yet proved in Lean is covered by the run. Tie + oracle: "
+                 "EVERY key/map/segment event sequence over an 11-letter alphabet up to the length bound, long random histories with IV/KEYFORMATVERSIONS, "
+                 "generated playlists with all 17 tags and the fixtures, through try_from -> to_string -> try_from -> to_string on library and model; status, "
+                 "observation (numbers, URIs, durations, titles, ranges, flags, date ranges, maps, per-segment keys, map coverage, effective IVs, unknown tags), "
+                 "R and F must agree; on the library R must be '=' and F '1' except on the recorded findings K2, K3, K4, which the model reproduces exactly."),
+        "design_ref": "DESIGN.md §7 C03",
+        "note": "Known findings K2 (key between MAP and URI), K3 (reset followed by fewer key formats) and K4 (default KEYFORMATVERSIONS) are reported as KNOWN-FINDING.",
+    },
     "C04": {
         "technique": "Lean 4 proof (writer's typed lines fed to the parser's state machine give back every parser-producible value; text level through the line-splitter lemmas under per-line re-classification) + to_string/try_from round trip run on library and model",
         "text": ("Proof (Lean 4, Props/C04.lean): master_write_parse - for EVERY master playlist value the parser can produce, the parser's state machine run on the "
